@@ -119,6 +119,18 @@ type PoolInv struct {
 	Src      string
 }
 
+// FieldInv: an invariant of the objects of a struct type that mentions only the listed fields, and a
+// closed list of functions that may write those fields.
+//   fieldinv[name] T.f,g writers w1 w2: <expr over x>
+type FieldInv struct {
+	Pkg, Name, Type string
+	Fields          []string
+	Writers         []string // function keys (package-qualified on load)
+	Expr            Expr
+	Src             string
+	Props           []string
+}
+
 type GhostField struct {
 	Struct string // pkgpath.Type
 	Name   string
@@ -133,6 +145,7 @@ type Specs struct {
 	GlobalInvs []*GlobalInv
 	Pools      []*PoolInv
 	FuncTypes  []*FuncTypeSpec
+	FieldInvs  []*FieldInv
 	GhostVars  map[string]string // $name -> sort
 	Files      []string
 	Guarded    []string
@@ -476,6 +489,27 @@ func (sp *Specs) LoadSpecFile(path, pkgPath string) error {
 				return fail("%v", err)
 			}
 			sp.Pools = append(sp.Pools, &PoolInv{Pkg: pkgPath, Var: strings.TrimSpace(rest[:i]), Inv: e, Src: src})
+		case "fieldinv":
+			// fieldinv[name] T.f,g writers w1 w2: expr over x
+			i := strings.Index(rest, ":")
+			if i < 0 {
+				return fail("fieldinv[name] T.f,g writers w...: <expr over x>")
+			}
+			hd := strings.Fields(rest[:i])
+			src := strings.TrimSpace(rest[i+1:])
+			if len(hd) < 2 || hd[1] != "writers" || !strings.Contains(hd[0], ".") {
+				return fail("fieldinv[name] T.f,g writers w...: <expr over x>")
+			}
+			e, err := ParseExpr(src)
+			if err != nil {
+				return fail("%v", err)
+			}
+			k := strings.Index(hd[0], ".")
+			fi := &FieldInv{Pkg: pkgPath, Name: label, Type: hd[0][:k], Fields: strings.Split(hd[0][k+1:], ","), Expr: e, Src: src, Props: curProps}
+			for _, w := range hd[2:] {
+				fi.Writers = append(fi.Writers, pkgPath+"."+w)
+			}
+			sp.FieldInvs = append(sp.FieldInvs, fi)
 		case "globalinv":
 			// globalinv[name] by init#1: expr
 			if !strings.HasPrefix(rest, "by ") {
